@@ -140,8 +140,9 @@ def ip6Ntoa (a : Bytes) : Option Text :=
       else some (joinWith 58 (chunks.take bs) ++ [58, 58] ++ joinWith 58 (chunks.drop (bs + bl)))
     else some (joinWith 58 chunks)
 
-def endsWith (s suf : List Nat) : Bool := decide (suf.length ≤ s.length) && s.drop (s.length - suf.length) == suf
 def startsWith (s pre : List Nat) : Bool := s.take pre.length == pre
+/-- `bytes.endswith`, stated on the reversed strings -/
+def endsWith (s suf : List Nat) : Bool := startsWith s.reverse suf.reverse
 
 /-- split at the last occurrence of `sep`: `(before, after)` -/
 def splitLast (sep : Nat) (s : List Nat) : Option (List Nat × List Nat) :=
